@@ -515,7 +515,7 @@ def gen_cases(ctx):
         if exact:
             # exact only while binary64 cannot round: |x| <= 4 (3 bits) plus log2(n_sub) fractional bits per variable
             nmax = max([n for (_, _, n) in cf if n] + [1])
-            if bitdeg(e, 3 + max(nmax, 1).bit_length()) > 52:
+            if bitdeg(e, 3 + max(nmax, 1).bit_length()) > 52 or any(n and (n & (n - 1)) for (_, _, n) in cf if isinstance(n, int)):
                 exact = False
         cases.append(dict(stream=stream, e=e, box=[tuple(b) for b in box], form=form, exact=exact, mono=mono,
                           cf=cf if cf is not None else configs(rng, d, exact, budget), **kw))
@@ -530,13 +530,13 @@ def gen_cases(ctx):
             cf=[("direct", None, None), ("endpoints", None, None), ("subinterval", "direct", 3), ("subinterval", "endpoints", 3),
                 ("subinterval", "direct", 1), ("subinterval", "endpoints", 4)])
     # A. exact stream: integer boxes, + - * pow, power-of-two subdivision
-    for _ in range(ctx.scale(96, 550)):
+    for _ in range(ctx.scale(80, 550)):
         d = rng.choice([1, 2, 2, 3, 3, 4])
         e = gen_expr(rng, d, rng.choice([2, 3, 3, 4]), ["add", "sub", "mul", "mul", "pow"], [-3, -2, -1, 2, 3, 5])
         form = rng.choice(["L", "L", "V", "T", "Li", "Vi", "Vf"]) if d > 1 else rng.choice(["L", "V", "S", "Li", "Vi"])
         add("exact", e, int_box(rng, d), form=form, exact=True)
     # B. general stream: dyadic boxes, division, exp, sqrt, any n_sub
-    n_b = ctx.scale(96, 550)
+    n_b = ctx.scale(80, 550)
     tries = 0
     while n_b > 0 and tries < 100000:
         tries += 1
@@ -552,7 +552,7 @@ def gen_cases(ctx):
         add("general", e, box, form=form)
         n_b -= 1
     # C. monotone by construction
-    for _ in range(ctx.scale(50, 300)):
+    for _ in range(ctx.scale(40, 300)):
         d = rng.choice([1, 2, 3, 4])
         box = dyadic_box(rng, d, positive=rng.random() < 0.4)
         e = mono_expr(rng, d, box)
@@ -626,6 +626,39 @@ def gen_cases(ctx):
         for e in seq_fns:
             add("sequence", e, box, exact=True, fstyle=fstyle,
                 cf=[("endpoints", None, None), ("subinterval", "endpoints", 2), ("subinterval", "endpoints", 4), ("direct", None, None)])
+    # C7. small problems exhaustively: d in 1..3, n_sub in 0..3, both styles, every way of passing the box
+    small_fns = {1: ("sub", ("mul", ("v", 0), ("v", 0)), ("mul", ("c", 3), ("v", 0))), 2: ("sub", ("mul", ("v", 0), ("v", 1)), ("v", 0)),
+                 3: ("add", ("mul", ("v", 0), ("v", 1)), ("mul", ("v", 2), ("v", 0)))}
+    small_boxes = {1: [(1, 5)], 2: [(-1, 2), (3, 5)], 3: [(-1, 1), (-1, 2), (2, 4)]}
+    for d in (1, 2, 3):
+        for form in (("L", "V", "S", "Li", "Vi") if d == 1 else ("L", "V", "T", "Vf")):
+            for ns, tag in (((0, 1, 2), True), ((3,), False)):
+                add("small", small_fns[d], small_boxes[d], form=form, exact=tag,
+                    cf=([("direct", None, None), ("endpoints", None, None)] if tag else []) +
+                       [("subinterval", st, n) for n in ns for st in ("direct", "endpoints")])
+    # C8. magnitudes: homogeneous polynomials on integer boxes scaled by powers of two (binary64 stays exact), and degree-one
+    #     responses at decimal scales 1e-19, 1e-170, 1e150
+    for k in range(ctx.scale(18, 180)):
+        d = rng.choice([1, 2, 3])
+        g = rng.choice([1, 2, 3])
+        terms = []
+        for _ in range(rng.choice([2, 3])):
+            t = ("v", rng.randrange(d))
+            for _ in range(g - 1):
+                t = ("mul", t, ("v", rng.randrange(d)))
+            terms.append(("mul", ("c", rng.choice([-3, -1, 2, 3])), t))
+        e = terms[0]
+        for t in terms[1:]:
+            e = (rng.choice(["add", "sub"]), e, t)
+        sc = (2.0 ** -70, 2.0 ** -30, 2.0 ** 36)[k % 3]
+        box = [(a * sc, b * sc) for a, b in int_box(rng, d)]
+        add("scaled", e, box, form=rng.choice(["L", "V"]) if d > 1 else rng.choice(["L", "V", "S"]), exact=True, mag_floor=0.0,
+            cf=[("direct", None, None), ("endpoints", None, None), ("subinterval", "direct", rng.choice([2, 4])), ("subinterval", "endpoints", rng.choice([1, 2, 4]))])
+    for sc in (1e-19, 1e-170, 1e150):
+        for e, box in ((("sub", ("mul", ("c", 2), ("v", 0)), ("v", 1)), [(1.0 * sc, 3.0 * sc), (-2.0 * sc, 5.0 * sc)]),
+                       (("add", ("v", 0), ("mul", ("c", -3), ("v", 0))), [(-1.0 * sc, 4.0 * sc)])):
+            add("scaled", e, box, form="L", mag_floor=0.0,
+                cf=[("direct", None, None), ("endpoints", None, None), ("subinterval", "direct", 3), ("subinterval", "endpoints", 2)])
     # C6. chained: the Interval RETURNED by one propagation is the first operand of the next
     for e0, box0, e1, rest in (
             (("sub", ("mul", ("v", 0), ("v", 1)), ("v", 0)), [(-1, 2), (3, 5)], ("sub", ("mul", ("v", 0), ("v", 0)), ("mul", ("v", 0), ("v", 1))), [(1, 2)]),
@@ -814,7 +847,9 @@ def run(ctx: core.Check, cases=None):
                 "(bounds that are negative-stride views), chained (the Interval returned by one propagation is an operand of the next), "
                 "edge-valid (exp below overflow, sqrt from 0, divisor just off zero, uint64 bounds), routing through EpistemicPropagation "
                 "/ Propagation on integer, dyadic and thin boxes with n_sub 1..4; half of the cases reuse the SAME operand objects for all "
-                "their configurations. d = 1..4 in list, tuple, vector-Interval (float, int64, Fortran-order) "
+                "their configurations, and every fifth run gets operands that went through copy / deepcopy / pickle. small (d 1..3 x n_sub 0..3 "
+                "x both styles x every input form), scaled (homogeneous polynomials on boxes scaled by 2^-70, 2^-30, 2^36: exact; degree "
+                "one at 1e-19, 1e-170, 1e150). d = 1..4 in list, tuple, vector-Interval (float, int64, Fortran-order) "
                 "and scalar-Interval form; response functions passed as callable object, closure of one factory, or lambda. Every result "
                 "object and operand is re-read after all calls; a sample of runs is repeated at the end.  One evaluation = one "
                 "(expression, box, strategy, style, n_sub) run of b2b; non-trivial unless the expression is a single variable; "
@@ -883,6 +918,13 @@ def run(ctx: core.Check, cases=None):
                     except BaseException:  # noqa
                         c["_vars"] = None
                 vobj = c["_vars"]
+            if vobj is None and box and not c.get("chain") and i % 5 == 3:
+                try:        # operands that were copied / deep-copied / pickled before use
+                    import copy as _copy, pickle as _pickle
+                    v0 = make_vars(c["form"], box)
+                    vobj = (_copy.copy, _copy.deepcopy, lambda z: _pickle.loads(_pickle.dumps(z)))[(i // 5) % 3](v0)
+                except BaseException:  # noqa
+                    vobj = None
             impl, fobj = run_b2b(e, box, c["form"], *cf, fstyle=c.get("fstyle") or ("object", "closure", "lambda")[i % 3],
                                  vars_obj=vobj, chain=c.get("chain"))
             key = (ci, cf)
@@ -950,7 +992,7 @@ def run(ctx: core.Check, cases=None):
             ctx.fail({"call": "b2b", "what": "operand-modified", "stream": c["stream"], "form": c["form"]}, cj(c, kcf),
                      f"the input intervals of b2b({kcf}) were modified by the call or by a later one")
     # ---- a few dozen runs again, after everything else: identical results (no state carried between calls) --------
-    again = [(i, r) for i, r in enumerate(runs) if r[1] == "b2b" and cases[r[0]]["stream"] in ("witness", "exact", "general", "sequence", "thin")]
+    again = [(i, r) for i, r in enumerate(runs) if r[1] == "b2b" and cases[r[0]]["stream"] in ("witness", "exact", "general", "sequence", "thin", "small", "scaled")]
     step = max(1, len(again) // ctx.scale(40, 200))
     for i, (ci, kind, cf) in again[::step]:
         c = cases[ci]
